@@ -1048,7 +1048,7 @@ class World:
 
     # ---- run one CLI invocation in-process
     def run(self, argv, order=None, faults=None, file_bufsize=None, stdout_bufsize=None,
-            exit_flush=True, stdout_encoding="utf-8", stdout_closed=False):
+            exit_flush=True, stdout_encoding="utf-8", stdout_closed=False, cwd=None):
         """argv: list of str where '@/x' is replaced by <root>/x (absolute; with path_style 'rel' relative to the
         current directory, which is then the root; with 'slash' directories get a trailing '/')."""
         def tr(a):
@@ -1092,8 +1092,8 @@ class World:
         sys.argv = ["peltool.py"] + real
         sys.stdout, sys.stderr = (None if stdout_closed else out), err      # `>&-`: the interpreter starts with sys.stdout = None
         saved_cwd = os.getcwd()
-        if self.path_style == "rel":
-            os.chdir(self.root)
+        if self.path_style == "rel" or cwd is not None:
+            os.chdir(os.path.join(self.root, cwd) if cwd else self.root)
         fs.active = True
         try:
             try:
@@ -1121,7 +1121,7 @@ class World:
             res.leaked = fs.end_op()
         finally:
             fs.active = False
-            if self.path_style == "rel":
+            if self.path_style == "rel" or cwd is not None:
                 os.chdir(saved_cwd)
             sys.argv, sys.stdout, sys.stderr = saved
         res.crashed = fs.ev.crashed
